@@ -50,6 +50,11 @@ type Unit struct {
 	cellStatic map[string]Val
 	hyps      []hyp
 	ghostSyms []string
+	entryState *state
+	structNames map[string]string
+	structOwner map[string]string
+	entryHeldReady bool
+	pendingHeld []string
 	entryHeld map[string][]string
 	witnesses []string
 	collectW  bool
@@ -171,7 +176,25 @@ func (u *Unit) sortOf(t types.Type) string {
 }
 
 func (u *Unit) structName(t types.Type) string {
-	return "S_" + sanitize(shortTypeName(t))
+	name := "S_" + sanitize(shortTypeName(t))
+	key := typeKey(t)
+	if u.structNames == nil {
+		u.structNames = map[string]string{}
+		u.structOwner = map[string]string{}
+	}
+	if n, ok := u.structNames[key]; ok {
+		return n
+	}
+	base := name
+	for i := 2; ; i++ {
+		if owner, taken := u.structOwner[name]; !taken || owner == key {
+			break
+		}
+		name = fmt.Sprintf("%s~%d", base, i)
+	}
+	u.structNames[key] = name
+	u.structOwner[name] = key
+	return name
 }
 
 func (u *Unit) structSort(t types.Type, st *types.Struct) string {
